@@ -378,3 +378,15 @@ func specB2I(b bool) int {
 	}
 	return 0
 }
+
+// specFuncProtoMaterialized: the function's lazily created 'prototype' property exists already.
+func specFuncProtoMaterialized(f *funcObject) bool {
+	_, ok := f.values["prototype"]
+	return ok
+}
+
+// specIsAsciiStr: v is the ASCII string s.
+func specIsAsciiStr(v Value, s string) bool {
+	a, ok := v.(asciiString)
+	return ok && string(a) == s
+}
